@@ -82,7 +82,7 @@ PROPS = {
     "C10": dict(
         domains=[("smserver", "hist", 1500, 20000), ("smserver", "cer", 500, 5000), ("smclient", "dialall", 1, 1), ("smclient", "dial", 200, 3000)],
         relevant=["C10:"],
-        theorems=["DV.Props.C10."+t for t in ["C10_gate","C10_after","C10_meta_after_write","C10_history","C10_builtin","C10_names_refused","C10_gen"]],
+        theorems=["DV.Props.C10."+t for t in ["C10_gate","C10_after","C10_meta_after_write","C10_history","C10_builtin","C10_names_refused","C10_client_first_cea_decides","C10_client_gate_needs_success","C10_gen"]],
         gen_obligations=["Gen.smNewRegs","Gen.cmdCapabilitiesExchange","Gen.cmdDeviceWatchdog"],
         trusted=["Model.SM hand-written from diam/sm/sm.go, cer.go, dwr.go, smparser/*.go, smpeer/metadata.go; dispatch through the C09 mux model"],
     ),
